@@ -1430,3 +1430,7 @@ pub fn parse_expr(source: &str) -> Result<ast::Expr<'_>, Error> {
     )
     .parse_standalone_expr()
 }
+
+#[cfg(kani)]
+#[path = "/verif/kani/compiler_parser.rs"]
+mod verif_kani;
